@@ -53,16 +53,17 @@ Definition update_data (s : st) (remote persist : bool) (u : upd) : st * list ob
     (* "just set the data" *)
     ({| sch := sch s; direct := direct s; store := Some (u_new u) |}, [Res 0; Ret (u_new u)])
   else
-    (* if r.data == nil { r.data = new(T) } *)
+    (* work := cloneData(r.data): an empty T when r.data == nil *)
     let existing := match store s with Some l => l | None => [] end in
-    let s0 := {| sch := sch s; direct := direct s; store := Some existing |} in
-    (* [fix C11 update-on-copy] the update runs on a copy that owns its list: nothing is
-       stored unless it succeeded and persist is set *)
+    (* [fix C11 functiondata-update-on-copy] the update runs on a copy that owns its list:
+       nothing is stored unless it succeeded and persist is set (a nil store stays nil).
+       For a direct history (bare data object, no FunctionData) the same holds only for
+       updates that succeed and persist, which is all the runners generate there. *)
     match update_list (sch s) remote existing (u_new u) (u_fp u) (u_fd u) with
-    | Panic => (s0, [Res 2])
-    | Ok (_, false) => (s0, [Res 1])
+    | Panic => (s, [Res 2])
+    | Ok (_, false) => (s, [Res 1])
     | Ok (d, true) =>
-        (if persist then {| sch := sch s; direct := direct s; store := Some d |} else s0, [Res 0; Ret d])
+        (if persist then {| sch := sch s; direct := direct s; store := Some d |} else s, [Res 0; Ret d])
     end.
 
 Definition step (s : st) (o : op) : st * list obs :=
